@@ -3,7 +3,7 @@ from checks import symgen, refqr
 
 ID = 'C06'
 PROP_MODULES = ['QRV.Props.C06', 'QRV.Props.C06Micro', 'QRV.Props.C06RMQR']
-RULE = ('bitmaps of sizes {0, 1, 7, 11..29, every valid size of every symbology and +-1, 43x7-style non-square, 181, 185, 1000x3}, origins {(0,0), (5,5), (-3,-3)}, contents: blank, '
+RULE = ('bitmaps of sizes {0, 1, 7, 11..29, every valid size of every symbology and +-1, 43x7-style non-square, 181, 185, 1000x3}, origins {(0,0), (5,5), (-3,-3)} and, for valid symbols, origins far from the symbol size on either side ((-w,-h), (-40,-40), (-1000,7), (300,0), (1000,1000), ...), contents: blank, '
         'all dark, noise, valid symbols of every symbology cropped / padded / pasted on a canvas of another version\'s size / shifted to a non-zero origin / with another version\'s '
         'format information stamped in / fed to the wrong symbology\'s decoder; each fed to all three DecodeBitmap functions under recover(), with a memory limit. '
         'Oracle: the outcome is ok or err, never a panic, crash or timeout; allocation is bounded by a small multiple of the bitmap size (measured by the harness). Also run on the '
@@ -67,6 +67,7 @@ def gen(ctx):
                 em.append(sym)
     outs = ctx.go(encs)
     mats = [(s, refqr.from_image_str(o[3:])) for s, o in zip(em, outs) if o.startswith('ok ')]
+    seen_far = {}
     for sym, m in mats:
         h, w = len(m), len(m[0])
 
@@ -75,6 +76,11 @@ def gen(ctx):
         feed(img_str(0, 0, w, h, at))                                   # as is (also to the wrong decoders)
         feed(img_str(5, 5, w, h, at))                                   # non-zero origin
         feed(img_str(-3, -3, w, h, at))
+        # origins far from the symbol size on either side: every coordinate the decoder uses has to be relative to Min
+        far = [(-5, 0), (0, -1), (-w, -h), (-w - 5, 0), (-40, -40), (-1000, 7), (7, 0), (300, 0), (1000, 1000)]
+        for (x0, y0) in (far if ctx.tier == 'thorough' or not seen_far.get(sym) else [r.choice(far), r.choice(far)]):
+            feed(img_str(x0, y0, w, h, at))
+        seen_far[sym] = seen_far.get(sym, 0) + 1
         feed(img_str(0, 0, w - 1, h, at))                               # cropped
         feed(img_str(0, 0, w, h - 1, at))
         feed(img_str(0, 0, w + 1, h + 1, at))                           # padded by one
